@@ -1412,6 +1412,123 @@ def rule_r18(repo, run, T):
     run.floor(R, "header lists in functions that open extern \"C\"", n, 5)
 
 
+# keys of a statement entry whose value is a list of names (helpers, destructors), not code
+NAME_KEYS = ("c_helper", "f_helper", "getter_helper", "setter_helper", "destructor_name")
+# typemap attributes by what they hold
+TYPE_SPELLINGS = ("cxx_type", "c_type")        # text of a type: `unsigned int`, `std::complex<double>`
+TYPE_NAMES = ("name", "flat_name")             # the typemap's name / identifier form: `unsigned_int`
+
+
+def _source_attribute(expr):
+    """the typemap attribute a format field is assigned from: X.attr, wformat(X.attr, fmt)"""
+    if isinstance(expr, ast.Call) and (pyflow.call_name(expr) or "").endswith("wformat") and expr.args:
+        expr = expr.args[0]
+    if isinstance(expr, ast.Attribute):
+        return expr.attr
+    return None
+
+
+def rule_r20(repo, run, T):
+    R = run.rule("C05.R20", "a format field that fills the name of a helper or destructor is assigned from the typemap attribute "
+                            "the helpers are registered under (flat_name); a field that fills a type position of C++ code "
+                            "(`std::vector<{F}>`, `sizeof({F})`, `_cast<{F}`) is assigned from a type spelling (cxx_type / c_type)")
+    # how the helpers of whelpers.py are named when they are registered
+    wm = repo.module("whelpers")
+    reg = {}
+    for q, fn in sorted(wm.functions().items()):
+        params = [a.arg for a in fn.args.args]
+        if "ntypemap" not in params:
+            continue
+        local = {}
+        for a in ast.walk(fn):
+            if isinstance(a, ast.Assign) and len(a.targets) == 1 and isinstance(a.value, ast.Attribute) and \
+                    pyflow.is_name(a.value.value, "ntypemap"):
+                t = a.targets[0]
+                if isinstance(t, ast.Name):
+                    local[t.id] = a.value.attr
+                elif isinstance(t, ast.Attribute) and pyflow.is_name(t.value, "fmt"):
+                    local["{%s}" % t.attr] = a.value.attr
+        for a in ast.walk(fn):
+            if not (isinstance(a, ast.Assign) and len(a.targets) == 1 and pyflow.is_name(a.targets[0], "name")):
+                continue
+            v = a.value
+            prefix = attr = None
+            if isinstance(v, ast.BinOp) and isinstance(v.op, ast.Add):
+                # "to_PyList_" + flat_name [+ "_numpy"]
+                parts = []
+                x = v
+                while isinstance(x, ast.BinOp) and isinstance(x.op, ast.Add):
+                    parts.insert(0, x.right)
+                    x = x.left
+                parts.insert(0, x)
+                if pyflow.const_str(parts[0]) and len(parts) > 1 and isinstance(parts[1], ast.Name):
+                    prefix, attr = pyflow.const_str(parts[0]), local.get(parts[1].id)
+            elif isinstance(v, ast.Call) and isinstance(v.func, ast.Attribute) and v.func.attr == "format" and \
+                    pyflow.const_str(v.func.value) and v.args and isinstance(v.args[0], ast.Name):
+                prefix, attr = pyflow.const_str(v.func.value).split("{")[0], local.get(v.args[0].id)
+            elif isinstance(v, ast.Call) and (pyflow.call_name(v) or "").endswith("wformat") and v.args and pyflow.const_str(v.args[0]):
+                m_ = re.match(r"(\w+?)(\{\w+\})", pyflow.const_str(v.args[0]))
+                if m_:
+                    prefix, attr = m_.group(1), local.get(m_.group(2))
+            if prefix and attr:
+                reg.setdefault(prefix, set()).add(attr)
+    if len(reg) < 6:
+        raise AnalysisError("C05.R20: registration of per-type helpers in whelpers not recognised (%s)" % sorted(reg))
+    # templates
+    name_fields, type_fields = {}, {}
+    for mn in ("statements", "wrapp", "wrapl"):
+        m = repo.module(mn)
+        for c in ast.walk(m.tree):
+            if isinstance(c, ast.keyword) and c.arg in NAME_KEYS and pyflow.const_str(c.value):
+                for word in pyflow.const_str(c.value).split():
+                    for f in re.findall(r"\{(\w+)\}", word):
+                        pre = word.split("{")[0]
+                        name_fields.setdefault(f, []).append((m, c.value, c.arg, pre, word))
+            elif isinstance(c, ast.Constant) and isinstance(c.value, str) and "{" in c.value:
+                par = getattr(c, "_parent", None)
+                if isinstance(par, ast.keyword) and par.arg in NAME_KEYS:
+                    continue
+                for f in re.findall(r"(?:vector<|sizeof\(|_cast<)\{(\w+)\}", c.value):
+                    type_fields.setdefault(f, []).append((m, c))
+    if len(name_fields) < 2 or not type_fields:
+        raise AnalysisError("C05.R20: helper-name templates / type positions not found (%s / %s)" % (sorted(name_fields), sorted(type_fields)))
+    # assignments of those fields in the wrappers
+    assigns = {}
+    for mn in ("wrapc", "wrapf", "wrapp", "wrapl", "generate"):
+        m = repo.module(mn)
+        for a in ast.walk(m.tree):
+            if isinstance(a, ast.Assign) and len(a.targets) == 1 and isinstance(a.targets[0], ast.Attribute) and \
+                    isinstance(a.targets[0].value, ast.Name) and a.targets[0].value.id.startswith("fmt"):
+                assigns.setdefault(a.targets[0].attr, []).append((m, a, _source_attribute(a.value)))
+    n = 0
+    for f, sites in sorted(name_fields.items()):
+        keyed = set()
+        for m, node, key, pre, word in sites:
+            keyed |= reg.get(pre, set())
+        m0, node0, key0, pre0, word0 = sites[0]
+        for m, a, src in assigns.get(f, []):
+            if src is None or src not in TYPE_SPELLINGS + TYPE_NAMES:
+                continue     # options, literals: not a typemap attribute
+            n += 1
+            want = keyed or {"flat_name"}
+            run.check(R, "%s:%s.%s=%s:helper-name" % (m.name, a.targets[0].value.id, f, src), src in want,
+                      "{%s} fills the name of a helper (`%s=\"%s\"`, %d templates) and the helpers are registered under the "
+                      "typemap's %s, but the field is assigned from .%s: `unsigned int` gives two words in a name list / a "
+                      "typedef'd type a name no helper has (KeyError in the generator)"
+                      % (f, key0, word0, len(sites), "/".join(sorted(want)), src), m.loc(a))
+    for f, sites in sorted(type_fields.items()):
+        m0, c0 = sites[0]
+        for m, a, src in assigns.get(f, []):
+            if src is None or src not in TYPE_SPELLINGS + TYPE_NAMES:
+                continue
+            n += 1
+            run.check(R, "%s:%s.%s=%s:type-position" % (m.name, a.targets[0].value.id, f, src), src in TYPE_SPELLINGS,
+                      "{%s} fills a type position of the generated C++ (`%s`, %d templates) but is assigned from the typemap's "
+                      ".%s, its identifier form: `std::vector<unsigned int>` is written `std::vector<unsigned_int>` (does not compile)"
+                      % (f, re.sub(r"\s+", " ", c0.value)[:50], len(sites), src), m.loc(a))
+    run.floor(R, "typed format-field assignments", n, 6)
+
+
 def run(repo, run, tier):
     tables.check_model_assumptions(repo)
     T = dict(
@@ -1440,6 +1557,7 @@ def run(repo, run, tier):
     rule_r17(repo, run, T)
     rule_r18(repo, run, T)
     rule_r19(repo, run, T)
+    rule_r20(repo, run, T)
     run.assumptions.extend([
         "field universe is an over-approximation (any attribute store / Scope keyword in the emitter's "
         "modules defines the field): a report means no assignment exists at all",
